@@ -101,6 +101,10 @@ class Executor:
             with open(p, "wb") as fh:
                 fh.write(base64.b64decode(f["b64"]))
             os.chmod(p, int(f.get("mode", "644"), 8))
+        for f in desc["sandbox"]:
+            if f.get("mtime_ns") is not None:
+                p = os.path.join(root, f["path"])
+                os.utime(p, ns=(int(f["mtime_ns"]), int(f["mtime_ns"])))
 
     @staticmethod
     def snapshot(root):
